@@ -94,6 +94,7 @@ Sig(k) == CASE k = "FC"      -> <<"act", "w", "b?">>
             [] k = "EMB"     -> <<"aux", "w">>
             [] k = "EW2"     -> <<"x", "x">>
             [] k = "CONCAT"  -> <<"x", "x">>
+            [] k = "CONCAT3" -> <<"x", "x", "x">>
             [] k = "EW1A"    -> <<"act", "aux">>
             [] k = "SAMEIN1" -> <<"act", "aux">>
             [] k = "SAMEIN3" -> <<"act", "aux", "aux", "aux">>
@@ -101,6 +102,7 @@ Sig(k) == CASE k = "FC"      -> <<"act", "w", "b?">>
             [] OTHER         -> <<"act">>      \* EW1, SAMEIN0, FIXSL, FIXT, UNSUP
 NOut(k) == IF k = "SPLIT" THEN 2 ELSE 1
 SameIn(k) == k \in {"SAMEIN0", "SAMEIN1", "SAMEIN3", "SPLIT"}
+IsConcat(k) == k \in {"CONCAT", "CONCAT3"}
 Fixed(k) == k \in {"FIXSL", "FIXT"}
 FixClass(k) == IF k = "FIXSL" THEN "SL" ELSE "T"
 \* the 16-bit fixed parameters of softmax/logistic and tanh coincide (scale 2^-15, zero point 0, symmetric)
@@ -144,6 +146,7 @@ PosChoices(s, k, j) ==
   IN CASE r = "act" -> ex(Acts(s))
        [] r = "aux" -> {<<"fresh">>}
        [] r = "b?"  -> {<<"absent">>, <<"fresh">>}
+                       \cup (IF Share \in {"tensor", "buffer"} THEN ex({t \in ConstsOf(s, "b") : sameUse(t)}) ELSE {})
        [] r = "w"   -> {<<"fresh">>}
                        \cup (IF Share \in {"tensor", "buffer"} THEN ex({t \in ConstsOf(s, "w") : sameUse(t)}) ELSE {})
                        \cup (IF Share = "buffer"
@@ -165,7 +168,7 @@ OutShape(s, k, sel) ==
        [] k = "EW2" -> IF acts = {} THEN <<FALSE, <<0, 0>>>>
                        ELSE LET ns == {x[1] : x \in shs} IN
                             <<Cardinality(ns \ {1}) <= 1, <<MaxS(ns), MaxS({x[2] : x \in shs})>>>>
-       [] k = "CONCAT" -> IF acts = {} THEN <<FALSE, <<0, 0>>>>
+       [] IsConcat(k) -> IF acts = {} THEN <<FALSE, <<0, 0>>>>
                           ELSE LET n == LET RECURSIVE f(_)
                                             f(j) == IF j > Len(sel) THEN 0
                                                     ELSE (IF j \in acts THEN ShapeOf(s, T(sel[j]))[1] ELSE 1) + f(j+1)
@@ -290,7 +293,7 @@ MatOp(s, i, q) ==
                 ELSE outStatPar(o.outs[1])
       inParSRQ(j) ==
         LET t == o.ins[j] IN
-        IF k = "CONCAT" THEN (IF IsConst(s, t) /\ FixConcat THEN <<"Wact", BufOf(s, t), ac, outStatPar(o.outs[1])>> ELSE outStatPar(o.outs[1]))
+        IF IsConcat(k) THEN (IF IsConst(s, t) /\ FixConcat THEN <<"Wact", BufOf(s, t), ac, outStatPar(o.outs[1])>> ELSE outStatPar(o.outs[1]))
         ELSE IF IsConst(s, t) THEN (IF isW(j) THEN WPar(s, t, m.w) ELSE <<"Wact", BufOf(s, t), ac>>)
         ELSE PTerm(stat(t), ac)
       inEntry(j) ==
